@@ -192,6 +192,35 @@ pub fn c14(a: &Args) {
             }
         }
     }
+    // ---- (c) the FILE loader: K sixel pictures of very different decode cost inside an .ans file; after loading every picture
+    //          must be there (one image layer each, in arrival order, complete rectangle) and no decode may be left pending
+    verif::sixel_gate_enable(false);
+    let tiny = |t: usize| format!("\x1bPq\"{t};1;4;6#1~~~~\x1b\\");
+    let big = |t: usize, w: usize, rows: usize| { let mut s = format!("\x1bPq\"{t};1;{w};{}#2", rows * 6); for _ in 0..rows { s.push_str(&format!("!{w}~-")); } s.push_str("\x1b\\"); s };
+    let mut n_files = 0;
+    for (name, parts) in [("tiny-big", vec![0, 1]), ("big-tiny", vec![1, 0]), ("tiny-big-tiny", vec![0, 1, 0]), ("tiny-tiny-big", vec![0, 0, 1]), ("big-big", vec![1, 1]), ("tiny", vec![0]), ("tiny-big-big-tiny", vec![0, 1, 1, 0])] {
+        for (w, rows) in [(600usize, 60usize), (1500, 150)] {
+            for rep in 0..(if thorough { 6 } else { 2 }) {
+                let mut file = String::new();
+                for (i, p) in parts.iter().enumerate() {
+                    file.push_str(&format!("\x1b[{};{}H", 1 + 2 * i, 1 + 3 * i));
+                    file.push_str(&if *p == 0 { tiny(i + 1) } else { big(i + 1, w, rows) });
+                }
+                file.push_str("\r\nend");
+                let res = guard(|| Buffer::from_bytes(std::path::Path::new("pics.ans"), true, file.as_bytes()));
+                match res {
+                    Ok(Ok(b)) => {
+                        let mut imgs = vec![];
+                        for l in &b.layers { for sx in &l.sixels { imgs.push(json!([sx.vertical_scale, sx.get_width(), sx.get_height(), sx.picture_data.len()])); } }
+                        out.ev(&json!({"ev":"fileload","case":format!("{name}:{w}x{rows}:{rep}"),"k":parts.len(),"imgs":imgs,"pending":b.sixel_threads.len(),"r":"ok"}));
+                    }
+                    Ok(Err(e)) => out.ev(&json!({"ev":"fileload","case":format!("{name}:{w}x{rows}:{rep}"),"k":parts.len(),"imgs":[],"pending":0,"r":"err","msg":e.to_string()})),
+                    Err(p) => out.ev(&json!({"ev":"fileload","case":format!("{name}:{w}x{rows}:{rep}"),"k":parts.len(),"imgs":[],"pending":0,"r":"panic","site":panic_site(&p)})),
+                }
+                n_files += 1;
+            }
+        }
+    }
     out.flush();
-    eprintln!("c14: {} schedules, {} queue events", id, out.n);
+    eprintln!("c14: {} schedules, {} files with sixel pictures, {} queue events", id, n_files, out.n);
 }
